@@ -594,11 +594,19 @@ func exec(line string) zv.Out {
 		return execBig(f)
 	case "wire":
 		return execWire(f)
+	case "ext":
+		return execExt(f)
+	case "check":
+		return execCheck(f)
+	case "rt":
+		return execRt(f)
+	case "wtc":
+		return execWtc(f)
 	}
 	panic("bad sub-op " + f[1])
 }
 
 func init() {
 	zv.Register(&zv.Prop{ID: "C29", Topic: "c29", Gen: gen, Exec: exec, Timeout: 120 * time.Second,
-		Rule: "marshal: random ClientFingerprintConfigurations (each built-in extension type alone with in-domain and edge contents; random extension lists with duplicates and NullExtension; session id 0/32/255/256; 0..40000 suites, implemented or not, ForceSuites on/off; compression [], [0], [0,1], [1], 256 bytes; configured / fresh / timestamped random; short randomness source) through ZVFingerprintMarshal, a case is one distinct configuration line; parse: ClientHellos from the fingerprint encoder and hand-built hellos with every extension type the parser knows (valid and malformed variants), every strict prefix of some, random byte mutations, through ZVClientHelloUnmarshal; wire: fingerprint configurations through a real tls.Client handshake over an in-memory transport (peer: a script answering ServerHelloDone, or a real zcrypto server), the ClientHello reassembled from the first handshake record(s) the client wrote (hellos of 16..65 KiB span several records): every built-in extension type alone, every ordered pair of types, all types at once in stock order / reversed / every rotation / random permutations, random lists with duplicates and NullExtension, configurations of the marshal stream (errors: nothing may be sent), SNI and session-ticket Autopopulate with Config.ServerName empty/set and the fingerprint SessionCache absent / without key / empty / holding a session that fits or not, RandomSessionID, user-defined extensions (every type the parser knows, heartbeat, NPN, padding, GREASE, unknown), crossed with Config options set before the handshake (" + coptDoc + ") - including a Config.ClientSessionCache (empty, or holding a session) in every stream: it must not change a byte nor make the handshake panic (D42); Config.Rand pinned so the comparison is exact; T3 = independent cryptobyte.Builder reference layout + read-back with the real parser + random/timestamp rule + wire bytes == configured encoding byte for byte, record type/version/fragment sizes, nothing on the wire when the configuration is refused, ClientHello of the client's (and the server's) handshake log == configured values, real handshakes complete"})
+		Rule: "marshal: random ClientFingerprintConfigurations (each built-in extension type alone with in-domain and edge contents; random extension lists with duplicates and NullExtension; session id 0/32/255/256; 0..40000 suites, implemented or not, ForceSuites on/off; compression [], [0], [0,1], [1], 256 bytes; configured / fresh / timestamped random; short randomness source) through ZVFingerprintMarshal, a case is one distinct configuration line; parse: ClientHellos from the fingerprint encoder and hand-built hellos with every extension type the parser knows (valid and malformed variants), every strict prefix of some, random byte mutations, through ZVClientHelloUnmarshal; wire: fingerprint configurations through a real tls.Client handshake over an in-memory transport (peer: a script answering ServerHelloDone, or a real zcrypto server), the ClientHello reassembled from the first handshake record(s) the client wrote (hellos of 16..65 KiB span several records): every built-in extension type alone, every ordered pair of types, all types at once in stock order / reversed / every rotation / random permutations, random lists with duplicates and NullExtension, configurations of the marshal stream (errors: nothing may be sent), SNI and session-ticket Autopopulate with Config.ServerName empty/set and the fingerprint SessionCache absent / without key / empty / holding a session that fits or not, RandomSessionID, user-defined extensions (every type the parser knows, heartbeat, NPN, padding, GREASE, unknown), crossed with Config options set before the handshake (" + coptDoc + ") - including a Config.ClientSessionCache (empty, or holding a session) in every stream: it must not change a byte nor make the handshake panic (D42); Config.Rand pinned so the comparison is exact; ext: every built-in extension type alone through its real Marshal() and CheckImplemented() (random in-domain and edge contents; every value at and around what the 1- and 2-byte length prefixes can carry: 255/256/257, 65535/65536/65537 bytes, 32766..32770 list entries, 2^17 bytes) - encoder never fails or panics, contents never truncated, length bytes = low 16 bits; check: CheckImplementedExtensions on random lists against the dumped tables; rt: marshal followed by the real unmarshal on the boundary values (alone and followed by another extension) and random configurations, dump of all parsed fields compared with the model; wtc: the real (*ClientFingerprintConfiguration).WriteToConfig on random extension lists with Autopopulate entries, ServerName empty/set, stale Config values - every Config field written and the extension list afterwards compared with the model and with an independent last-wins reference; T3 = independent cryptobyte.Builder reference layout + read-back with the real parser + random/timestamp rule + wire bytes == configured encoding byte for byte, record type/version/fragment sizes, nothing on the wire when the configuration is refused, ClientHello of the client's (and the server's) handshake log == configured values, real handshakes complete"})
 }
